@@ -1,4 +1,4 @@
-# C15 — no numeric constants.  This spec file is the per-property hook of tools/gen_constants.py (which `check` runs
+# C15 — one numeric constant (the indexer's auto-save threshold).  This spec file is also the per-property hook of tools/gen_constants.py (which `check` runs
 # first on every invocation and which executes every tools/constants/*.py): it regenerates
 # lean/Rustic/Gen/RepositoryApi.lean — the public methods of `Repository`, the methods with a `dry_run` parameter and
 # the option structs with a `pub dry_run` field, read from the CURRENT source tree — through tools/c15_api_table.py.
@@ -20,4 +20,7 @@ def _regen():
     print(mod.main(repo_root=repo))
 
 _regen()
-SPECS = []
+SPECS = [
+    ("C15_INDEXER_MAX_COUNT", "crates/core/src/index/indexer.rs", r"const MAX_COUNT: usize = ([^;]+);",
+     "index/indexer.rs constants::MAX_COUNT: blobs after which `Indexer::add_with` writes an index file on its own (Model/CommandSteps.lean: the dry-run guard of repair_index must stand in front of add_with)"),
+]
